@@ -108,13 +108,18 @@ HdrFindSpecX(mx, Window) ==
             IF hl > mx.len - i THEN [k |-> "err"]
             ELSE Ok(Some([at |-> i, len |-> hl, idx |-> U32Bytes(i)]))
 \* loading on a structural (large) region: only the header words and the last 8 bytes are read
+\* "huge": a region of len8 * 8 >= 2^30 bytes (beyond TLC's integers: sizes are kept in units of 8 bytes and as byte
+\* lists; the harness reports sizes >= 2^30 as Far); structurally a header, zeros, and the last 8 bytes
+Shl3(b) == [i \in 1..4 |-> ((b[i] * 8) % 256) + (IF i > 1 THEN b[i - 1] \div 32 ELSE 0)]      \* 8 * value, as 4 LE bytes
 LoadSpecX(mx) ==
+  IF "huge" \in DOMAIN mx THEN (IF mx.huge.endok THEN Ok([start |-> 0, end |-> Far, ptr |-> 0, total |-> Far]) ELSE Err("NoEndTag")) ELSE
   LET T == LE4(XBytes(mx, 0, 4)) IN
   IF T < 8 THEN Err("Memory(ShorterThanHeader)")
   ELSE IF T % 8 # 0 THEN Err("Memory(MissingPadding)")
   ELSE IF XBytes(mx, T - 8, 8) # EndTagBytes THEN Err("NoEndTag")
   ELSE Ok([start |-> 0, end |-> T, ptr |-> 0, total |-> T])
 HLoadSpecX(mx) ==
+  IF "huge" \in DOMAIN mx THEN (IF mx.huge.endok THEN Ok([len |-> Far]) ELSE Err("ChecksumMismatch")) ELSE
   LET L == LE4(XBytes(mx, 8, 4)) IN
   IF L < 16 THEN Err("Memory(ShorterThanHeader)")
   ELSE IF L % 8 # 0 THEN Err("Memory(MissingPadding)")
